@@ -105,6 +105,21 @@ impl Check for C03 {
         tagged.into_iter().filter(|t| t.prop == Prop::C03).map(|t| t.v).collect()
     }
 
+    fn extra_coverage(
+        &self,
+        _tier: Tier,
+        _c: &std::collections::BTreeMap<String, u64>,
+    ) -> serde_json::Map<String, serde_json::Value> {
+        let mut m = serde_json::Map::new();
+        m.insert("enumerated_operand_grid_cells".into(), serde_json::json!(vmgen::operand_cells()));
+        m.insert("enumerated_small_scope_programs".into(), serde_json::json!(vmgen::small_cells()));
+        m.insert(
+            "enumeration_note".into(),
+            serde_json::json!("complete: every int/float instruction x every ordered pair of boundary literals; every program of <= 5 nodes over <= 2 distinct instructions (one exec-structural) x 3 bool stacks x 2 exec capacities; the same under every VERIF_SEED"),
+        );
+        m
+    }
+
     fn shrink(&self, sc: &VmSc) -> Vec<VmSc> {
         vmgen::shrink(sc)
     }
